@@ -2,6 +2,7 @@
 
 use proc_macro::TokenStream;
 use quote::quote;
+use syn::ext::IdentExt;
 use syn::{DataStruct, DeriveInput, Field, Ident, Lit, Meta};
 
 /// Derives the `FromJson` trait for a named struct.
@@ -17,7 +18,7 @@ pub fn from_json_named_struct(ast: DeriveInput, r#struct: &DataStruct) -> TokenS
         .iter()
         .map(|field| {
             if !field.attrs.iter().any(|attr| attr.path.is_ident("rename")) {
-                field.ident.as_ref().unwrap().to_string()
+                field.ident.as_ref().unwrap().unraw().to_string()
             } else {
                 let attr = field
                     .attrs
@@ -68,7 +69,7 @@ pub fn into_json_named_struct(ast: DeriveInput, r#struct: &DataStruct) -> TokenS
         .iter()
         .map(|field| {
             if !field.attrs.iter().any(|attr| attr.path.is_ident("rename")) {
-                field.ident.as_ref().unwrap().to_string()
+                field.ident.as_ref().unwrap().unraw().to_string()
             } else {
                 let attr = field
                     .attrs
